@@ -176,7 +176,24 @@ ArgVarExpect(c) == LET v == CallFn(c.f, c.r, c.a) IN
                                  ELSE [kind |-> "any"]
 ArgVarRecord(c) == [src |-> ArgVarSrc(c), data |-> <<>>, expect |-> ArgVarExpect(c), tags |-> <<"c11", "argvars", c.r.t, c.f>>]
 
+\* purity across DIFFERENT functions: one receiver (a variable, a loop variable), a call, another function's call, the
+\* first call again, the receiver printed - every result is the one the function gives on the original receiver
+Cl(f, a) == [f |-> f, a |-> a]
+SeqStrCalls == {Cl("reverse", <<>>), Cl("at", <<I(0)>>), Cl("at", <<I(-1)>>), Cl("first", <<>>), Cl("last", <<>>), Cl("truncate", <<I(1)>>), Cl("len", <<>>),
+                Cl("upper", <<>>), Cl("lower", <<>>), Cl("capitalize", <<>>), Cl("repeat", <<I(2)>>), Cl("trim", <<>>), Cl("split", <<C(<<"B">>)>>),
+                Cl("contains", <<C(<<"a">>)>>), Cl("str", <<>>)}
+SeqArrCalls == {Cl("reverse", <<>>), Cl("slice", <<I(1)>>), Cl("append", <<I(9)>>), Cl("prepend", <<I(9)>>), Cl("len", <<>>), Cl("join", <<C(<<"-">>)>>), Cl("contains", <<I(1)>>)}
+SeqCases == {[r |-> r, c1 |-> c1, c2 |-> c2, loopvar |-> lv] : r \in {C(<<"a", "$e$", "B">>), C(<<" ", "a", "B", "$u$">>)}, c1 \in SeqStrCalls, c2 \in SeqStrCalls, lv \in BOOLEAN}
+       \cup {[r |-> r, c1 |-> c1, c2 |-> c2, loopvar |-> lv] : r \in {IntArr(3), A(<<S("x"), S("y")>>)}, c1 \in SeqArrCalls, c2 \in SeqArrCalls, lv \in BOOLEAN}
+SeqCall(c) == "{{ r." \o c.f \o "(" \o LitList(c.a) \o ") }}"
+SeqRecord(c) == LET v1 == CallFn(c.c1.f, c.r, c.c1.a)  v2 == CallFn(c.c2.f, c.r, c.c2.a)
+                    body == SeqCall(c.c1) \o "|" \o SeqCall(c.c2) \o "|" \o SeqCall(c.c1) \o "|{{ r }}"
+                    good == \A v \in {v1, v2} : ~Bad(v) /\ v.t \notin {"oneof", "perm", "erroror"} /\ PrintableB(v) IN
+                [src |-> IF c.loopvar THEN "@each(r in [" \o LitV(c.r) \o "])" \o body \o "@end" ELSE "{{ r = " \o LitV(c.r) \o " }}" \o body, data |-> <<>>,
+                 expect |-> IF good THEN [kind |-> "out", out |-> ShowB(v1) \o "|" \o ShowB(v2) \o "|" \o ShowB(v1) \o "|" \o ShowB(c.r)] ELSE [kind |-> "any"],
+                 tags |-> <<"c11", "seqcalls", c.r.t, c.c1.f, c.c2.f>>]
 Cases == CASE Family = "twice" -> TwiceCases
+           [] Family = "seqcalls" -> SeqCases
            [] Family = "argvars" -> ArgVarCases
            [] Family = "conv" -> ConvCases
            [] Family = "convdata" -> ConvDataCases
@@ -216,7 +233,7 @@ ASSUME LemmaLenRev /\ LemmaSlice /\ LemmaCase
 
 Init == cas \in Cases /\ rec = [src |-> ""]
 Next == rec.src = "" /\ rec' = (IF Family = "conv" THEN ConvRecord(cas) ELSE IF Family = "convdata" THEN ConvDataRecord(cas) ELSE IF Family = "twice" THEN TwiceRecord(cas)
-                                      ELSE IF Family = "argvars" THEN ArgVarRecord(cas) ELSE Record(cas)) /\ UNCHANGED cas
+                                      ELSE IF Family = "argvars" THEN ArgVarRecord(cas) ELSE IF Family = "seqcalls" THEN SeqRecord(cas) ELSE Record(cas)) /\ UNCHANGED cas
 Spec == Init /\ [][Next]_vars
 Total == (rec.src # "" /\ Family \notin {"conv", "convdata"}) => rec.expect.kind \in {"out", "err", "any", "oneof", "errorout"}
 Gen == (rec.src # "" /\ Emit_) => PrintT(ToJson(rec))
